@@ -25,4 +25,21 @@ mod tests {
         let line_col_3 = tree.get_line_col(offset_3, code).unwrap();
         assert_eq!(line_col_3, (3, 0));
     }
+
+    #[test]
+    fn test_col_past_line_end_is_clamped() {
+        let code = "ab\ncd\nef";
+        let index = LineIndex::parse(code);
+        assert_eq!(index.get_offset(0, 10, code), Some(2.into()));
+        assert_eq!(index.get_offset(1, 2, code), Some(5.into()));
+        assert_eq!(index.get_offset(2, 10, code), Some(8.into()));
+        assert_eq!(index.get_offset(3, 0, code), None);
+        assert_eq!(index.get_col_offset_at_line(0, 10, code), Some(2.into()));
+
+        let code = "好a\r\n好";
+        let index = LineIndex::parse(code);
+        assert_eq!(index.get_offset(0, 1, code), Some(3.into()));
+        assert_eq!(index.get_offset(0, 10, code), Some(5.into()));
+        assert_eq!(index.get_offset(1, 10, code), Some(9.into()));
+    }
 }
